@@ -613,9 +613,108 @@ def run_bins_direct(ctx):
             return
 
 
+def run_close_labels(ctx):
+    """numeric labels that are distinct but close (a time axis 1000 s + k ms, acquisition time stamps one hour apart,
+    channel positions in metres): selections match labels by value -- exactly the matching items, nothing 'close'"""
+    rng = ctx.rng
+    n_obs, n_ch, n_t = int(rng.integers(3, 7)), int(rng.integers(3, 6)), int(rng.integers(4, 9))
+    onset = [1.7e9 + 3600.0 * k for k in rng.permutation(40)[:n_obs]]
+    cpos = [12345.0 + 0.01 * k for k in rng.permutation(20)[:n_ch]]
+    tval = [1000.0 + 0.001 * k for k in range(n_t)]
+    m = np.array([[[1e4 * (o + 1) + 1e2 * (c + 1) + t for t in range(n_t)] for c in range(n_ch)] for o in range(n_obs)],
+                 dtype=float)
+    cont = gen.pick(rng, gen.CONTAINERS)
+    tds = TemporalDataset(m.copy(), obs_descriptors={'onset': gen.wrap(onset, cont)},
+                          channel_descriptors={'pos': gen.wrap(cpos, cont)}, time_descriptors={'time': np.array(tval)})
+    flat = Dataset(m[:, :, 0].copy(), obs_descriptors={'onset': gen.wrap(onset, cont)},
+                   channel_descriptors={'pos': gen.wrap(cpos, cont)})
+    sig = dict(op='close_labels', temporal=True, shape='small')
+    wit = lambda **k: dict(onset=onset, pos=cpos, time=tval, **k)  # noqa: E731
+
+    def expect(check, got, want, what):
+        ctx.case(check, dict(sig, arg=what))
+        if got.shape != want.shape or not np.array_equal(got, want):
+            ctx.fail(check, dict(sig, what='selection', arg=what), f'{what}: selected measurements are not exactly those of '
+                     f'the matching items (got shape {got.shape}, expected {want.shape})', wit(what=what))
+            return False
+        return True
+    try:
+        i = int(rng.integers(n_obs))
+        if not expect('subset_obs', np.asarray(flat.subset_obs('onset', onset[i]).measurements), m[[i], :, 0], 'one onset'):
+            return
+        two = sorted(int(v) for v in rng.choice(n_obs, size=2, replace=False))
+        if not expect('subset_obs', np.asarray(tds.subset_obs('onset', [onset[k] for k in two]).measurements), m[two],
+                      'two onsets'):
+            return
+        j = int(rng.integers(n_ch))
+        if not expect('subset_channel', np.asarray(flat.subset_channel('pos', cpos[j]).measurements), m[:, [j], 0],
+                      'one channel position'):
+            return
+        a, b = sorted(int(v) for v in rng.integers(0, n_t, size=2))
+        if not expect('subset_time', np.asarray(tds.subset_time('time', tval[a], tval[b]).measurements), m[:, :, a:b + 1],
+                      'time range'):
+            return
+        parts = flat.split_obs('onset')
+        ctx.case('split_obs', dict(sig, arg='onset'))
+        if len(parts) != n_obs or any(p.n_obs != 1 for p in parts):
+            ctx.fail('split_obs', dict(sig, what='number_of_parts', arg='close floats'), f'{len(parts)} parts with '
+                     f'{[p.n_obs for p in parts]} rows for {n_obs} distinct onsets', wit())
+    except Exception as exc:
+        ctx.fail('subset_obs', dict(sig, what='raised', exception=type(exc).__name__), repr(exc), wit())
+
+
+def run_large_groupings(ctx):
+    """realistic sizes: more than a thousand trials (voxels) whose sorted condition (ROI) labels are stored as a numpy
+    array; two sessions in one process whose group boundaries differ.  Averages, splits and channel splits are the
+    rows (columns) carrying each label -- in every session, not only in the first"""
+    rng = ctx.rng
+    n_obs = int(rng.integers(1100, 1400))
+    for session in range(2):
+        cuts = sorted(int(v) for v in rng.choice(np.arange(100, n_obs - 100), size=2, replace=False))
+        sizes = [cuts[0], cuts[1] - cuts[0], n_obs - cuts[1]]
+        cond = np.repeat(np.array([3, 5, 8]), sizes)
+        m = rng.standard_normal((n_obs, 2)).round(3)
+        ds = Dataset(m.copy(), obs_descriptors={'cond': cond.copy(), 'ouid': np.arange(n_obs)})
+        sig = dict(op='large_groupings', temporal=False, shape='large')
+        wit = lambda **k: dict(n_obs=n_obs, sizes=sizes, session=session, **k)  # noqa: E731
+        ctx.case('average_by', dict(sig, arg='sorted_array_labels'))
+        avg, vals, counts = average_dataset_by(ds, 'cond')
+        want = np.array([m[cond == c].mean(axis=0) for c in (3, 5, 8)])
+        if [int(v) for v in vals] != [3, 5, 8] or [int(c) for c in counts] != sizes or \
+                not np.allclose(avg, want, rtol=1e-12, atol=1e-12):
+            ctx.fail('average_by', dict(sig, what='mean', arg='sorted_array_labels'), f'session {session}: averages / counts '
+                     f'{[int(c) for c in counts]} of {n_obs} trials with group sizes {sizes} are not those of the rows '
+                     f'carrying each label', wit())
+            return
+        ctx.case('split_obs', dict(sig, arg='sorted_array_labels'))
+        parts = ds.split_obs('cond')
+        if [p.n_obs for p in parts] != sizes or any(set(int(v) for v in p.obs_descriptors['cond']) != {c}
+                                                     for p, c in zip(parts, (3, 5, 8))):
+            ctx.fail('split_obs', dict(sig, what='association', arg='sorted_array_labels'), f'session {session}: parts have '
+                     f'{[p.n_obs for p in parts]} rows, labels {[sorted(set(int(v) for v in p.obs_descriptors["cond"])) for p in parts]}; '
+                     f'group sizes are {sizes}', wit())
+            return
+    n_ch = int(rng.integers(1200, 1600))
+    for session in range(2):
+        cut = int(rng.integers(200, n_ch - 200))
+        roi = np.repeat(np.array(['V1', 'V2']), [cut, n_ch - cut])
+        m = rng.standard_normal((2, n_ch)).round(3)
+        ds = Dataset(m.copy(), channel_descriptors={'roi': roi.copy()})
+        ctx.case('split_channel', dict(op='large_groupings', temporal=False, shape='large', arg='sorted_array_labels'))
+        parts = ds.split_channel('roi')
+        if [p.n_channel for p in parts] != [cut, n_ch - cut] or not np.array_equal(parts[0].measurements, m[:, :cut]):
+            ctx.fail('split_channel', dict(op='large_groupings', what='association', arg='sorted_array_labels'),
+                     f'session {session}: channel split sizes {[p.n_channel for p in parts]}, ROI sizes {[cut, n_ch - cut]}',
+                     dict(n_ch=n_ch, cut=cut, session=session))
+            return
+
+
 def run(ctx):
+    for _ in range(ctx.n(2, 4)):
+        run_large_groupings(ctx)
     for _ in range(ctx.n(40, 200)):
         run_bins_direct(ctx)
+        run_close_labels(ctx)
     n = ctx.n(200, 3000)
     length = 10 if ctx.tier == 'quick' else 20
     for it in range(n):
